@@ -77,6 +77,20 @@ def run(ctx):
         mp, pr = s["proof"]["path"], s["proof"]
         model_path_ok = mp["intact"] and mp["key"] == pr["st"]["id"]
         model_root_ok = mp["root"] == pr["map"]["root"]
+        if row["path_proves_state"] and not model_path_ok:
+            # the harness altered the path (or took the path of another key) and the REAL fixedtree.Proof.Prove(key) - the
+            # mechanism that binds the state to the tree root - still says the path proves the state: an observation on the
+            # code under test, not a disagreement about what was built (seeded change C13e; before, this ended as exit 2)
+            ctx.violation("tampered-path-proves-state(%s)" % f["kind"],
+                          "SuffrageProof{block height %d, suffrage height %d, states tree of %d with the state at %d}, forgery %s%s: "
+                          "the altered proof path is accepted by Proof.Prove as proving the state (verdict of IsValid+Prove: %s)" % (
+                              s["i"] * s["gap"], s["i"], s["tsize"], s["tpos"], f["kind"],
+                              "(j=%d)" % f["j"] if f["j"] >= 0 else "", row["verdict"]),
+                          {"case": rows[row["idx"]], "model": s, "real": row})
+            ctx.case([s["k"], s["i"], s["tsize"], s["tpos"], f["kind"], f["j"]], nontrivial=True,
+                     sample={"case": rows[row["idx"]], "want": s["want"], "real": row["verdict"]})
+            ctx.traces += 1
+            continue
         if row["path_proves_state"] != model_path_ok or (model_path_ok and row["path_root_is_states_tree"] != model_root_ok):
             raise core.MachineryError("real forgery differs from the model's: %s real=%s" % (rows[row["idx"]], row))
         ctx.case([s["k"], s["i"], s["tsize"], s["tpos"], f["kind"], f["j"]], nontrivial=f["kind"] != "none" or s["k"] > 0,
